@@ -34,13 +34,13 @@ LEVEL = "translation_validation"
 # symbolic database = objects + the rows to_dao would store for them
 # ---------------------------------------------------------------------------------------------
 class DB:
-    def __init__(self, ctx, R, need_leaf, need_parent, with_sub, rich_only=False):
+    def __init__(self, ctx, R, need_leaf, need_parent, with_sub, rich_only=False, lean=False):
         self.riches = []
         self.leaves = []
         self.nodes = []
         if rich_only:
             return
-        for j in range(R):
+        for j in range(0 if lean else R):  # lean: the shape does not look at leaves
             k = ctx.choice("leafclass%d" % j, 2)
             self.leaves.append(M.Leaf(ctx.fresh_int("lv%d" % j)) if k == 0 else M.SubLeaf(ctx.fresh_int("lv%d" % j), ctx.fresh_int("lw%d" % j)))
         self.nodes = []
@@ -51,7 +51,9 @@ class DB:
             else:
                 self.nodes.append(M.Node(ctx.fresh_int("tag%d" % i)))
         for i, nd in enumerate(self.nodes):
-            if need_leaf:
+            if lean:
+                nd.leaf = None
+            elif need_leaf:
                 nd.leaf = self.leaves[ctx.choice("leaf%d" % i, R)]  # dereferenced relationships are non-NULL (precondition)
             else:
                 l = ctx.choice("leaf%d" % i, R + 1) - 1
@@ -64,8 +66,14 @@ class DB:
 
     TEXTS = ["Body1", "body1", "B_dy1", "Body%", "x", ""]
 
-    def add_riches(self, ctx, R):
-        self.riches = [M.Rich(number=ctx.fresh_int("num%d" % i), text=self.TEXTS[ctx.choice("text%d" % i, len(self.TEXTS))]) for i in range(1 + ctx.choice("n_rich", R))]
+    def add_riches(self, ctx, R, with_owner=False):
+        if with_owner:  # (the shape does not look at the texts)
+            self.riches = [M.Rich(number=ctx.fresh_int("num%d" % i), text="x") for i in range(1 + ctx.choice("n_rich", R))]
+        else:
+            self.riches = [M.Rich(number=ctx.fresh_int("num%d" % i), text=self.TEXTS[ctx.choice("text%d" % i, len(self.TEXTS))]) for i in range(1 + ctx.choice("n_rich", R))]
+        if with_owner:
+            for i, r in enumerate(self.riches):
+                r.owner = self.nodes[ctx.choice("owner%d" % i, len(self.nodes))]  # joined relationships are non-NULL (precondition)
 
     def tables(self) -> Dict[str, List[Dict[str, Any]]]:
         """rows as the generated layer stores them (joined-table inheritance, FK columns)"""
@@ -83,7 +91,7 @@ class DB:
             if isinstance(n, M.SubNode):
                 t["SubNodeDAO"].append(dict(database_id=nid[id(n)], extra=n.extra))
         for i, r in enumerate(getattr(self, "riches", [])):
-            t["RichDAO"].append(dict(database_id=i + 1, number=r.number, text=r.text, owner_id=None))
+            t["RichDAO"].append(dict(database_id=i + 1, number=r.number, text=r.text, owner_id=nid[id(r.owner)] if r.owner is not None else None))
         return t
 
 
@@ -262,9 +270,9 @@ def _v(vars_, name, cls, dom):
 SHAPES = {}
 
 
-def shape(name, expect="accept", need_leaf=False, need_parent=False, with_sub=False, root=M.Node, core=True):
+def shape(name, expect="accept", need_leaf=False, need_parent=False, with_sub=False, root=M.Node, core=True, join_nodes=False):
     def deco(f):
-        SHAPES[name] = dict(f=f, expect=expect, need_leaf=need_leaf, need_parent=need_parent, with_sub=with_sub, root=root, core=core)
+        SHAPES[name] = dict(f=f, expect=expect, need_leaf=need_leaf, need_parent=need_parent, with_sub=with_sub, root=root, core=core, join_nodes=join_nodes)
         return f
     return deco
 
@@ -376,6 +384,16 @@ def _s19(n, m, k, db):
 
 
 # shapes the translator cannot express: it has to say so
+@shape("r.owner == m.parent (relationship equality join between variables of two types)", root=M.Rich, need_parent=True, join_nodes=True)
+def _s20(n, m, k, db):
+    return n.owner == m.parent, lambda o, ns: True
+
+
+@shape("and_(r.owner == m.parent, m.tag > k0) (join and a condition on the joined variable)", root=M.Rich, need_parent=True, join_nodes=True)
+def _s21(n, m, k, db):
+    return and_(n.owner == m.parent, m.tag > k[0]), lambda o, ns: True
+
+
 @shape("not_(n.tag > k0)", expect="reject")
 def _r1(n, m, k, db):
     return not_(n.tag > k[0]), None
@@ -410,10 +428,10 @@ def harness(name, R, quant):
         from krrood.ormatic.eql_interface import eql_to_sql, EQLTranslationError
 
         dao = ormgen.harness_dao()
-        db = DB(ctx, R, sp["need_leaf"], sp["need_parent"], sp["with_sub"], rich_only=sp["root"] is M.Rich)
+        db = DB(ctx, R, sp["need_leaf"], sp["need_parent"], sp["with_sub"], rich_only=sp["root"] is M.Rich and not sp["join_nodes"], lean=sp["join_nodes"])
         k = [ctx.fresh_int("k%d" % i) for i in range(3)]
         if sp["root"] is M.Rich:
-            db.add_riches(ctx, R)
+            db.add_riches(ctx, R, with_owner=sp["join_nodes"])
             roots = db.riches
         else:
             roots = [o for o in db.nodes if isinstance(o, sp["root"])]
@@ -474,12 +492,37 @@ def harness(name, R, quant):
                 ctx.detail(dict(sqlite_ids=sql_ids, sqlite_exception=sql_exc))
                 if quant == "the":
                     v["the-fails-in-both-worlds-alike"] = (mem_exc is None) == (sql_exc is None)
+                    v["evaluate()-fails-when-the-engine-fails"] = v["the-fails-in-both-worlds-alike"]
                     if mem_exc is None and sql_exc is None:
                         v["same-entities"] = sorted(set(sql_ids)) == sorted(i + 1 for i in mem)
+                        v["evaluate()-returns-the-engine's-entities"] = v["same-entities"]
                 else:
                     v["same-entities"] = sorted(set(sql_ids)) == sorted(set(i + 1 for i in mem))
+                    v["evaluate()-returns-the-engine's-entities"] = v["same-entities"]
                 return v
             ctx.observe(mem, mem_exc)
+            # ---- the translator's own evaluate() (real code) over the modelled rows ----
+            from sqlalchemy.exc import MultipleResultsFound, NoResultFound
+
+            tr.session = FakeSession(db.tables(), dao_table(sp["root"]))
+            ev_ids, ev_exc = None, None
+            try:
+                res = tr.evaluate()
+                ev_ids = [res.database_id] if quant == "the" else [r.database_id for r in res]
+            except NoResultFound:
+                ev_exc = "none"
+            except MultipleResultsFound:
+                ev_exc = "multiple"
+            except NotModelled as e:
+                ctx.observe("evaluate() outside the modelled result API: %s" % e)
+                v["statement-within-the-modelled-subset"] = False
+                return v
+            if quant == "the":
+                v["evaluate()-fails-when-the-engine-fails"] = (mem_exc is None) == (ev_exc is None)
+                if mem_exc is None and ev_exc is None:
+                    v["evaluate()-returns-the-engine's-entities"] = ev_ids == [i + 1 for i in mem]
+            else:
+                v["evaluate()-returns-the-engine's-entities"] = sorted(set(ev_ids)) == sorted(set(i + 1 for i in mem))
             terms = []
             nid = {i: i + 1 for i in range(len(all_roots))}
             sel = {i: (OR(per_root.get(nid[i], [])) if per_root.get(nid[i]) else False) for i in range(len(all_roots))}
@@ -495,6 +538,78 @@ def harness(name, R, quant):
             return v
 
     return h
+
+
+class FakeRow:
+    """stands for the one DAO instance of a row (the identity map of a session hands out one object per row)"""
+
+    def __init__(self, database_id):
+        self.database_id = database_id
+
+
+class FakeScalarResult:
+    """the part of sqlalchemy's ScalarResult that a translator may use, over the rows the modelled statement returns"""
+
+    def __init__(self, rows):
+        self.rows = list(rows)
+
+    def unique(self):
+        out = []
+        for r in self.rows:
+            if not any(r is x for x in out):
+                out.append(r)
+        return FakeScalarResult(out)
+
+    def all(self):
+        return list(self.rows)
+
+    fetchall = all
+
+    def __iter__(self):
+        return iter(list(self.rows))
+
+    def first(self):
+        return self.rows[0] if self.rows else None
+
+    def one(self):
+        from sqlalchemy.exc import MultipleResultsFound, NoResultFound
+
+        if not self.rows:
+            raise NoResultFound("No row was found when one was required")
+        if len(self.rows) > 1:
+            raise MultipleResultsFound("Multiple rows were found when exactly one was required")
+        return self.rows[0]
+
+    def one_or_none(self):
+        from sqlalchemy.exc import MultipleResultsFound
+
+        if len(self.rows) > 1:
+            raise MultipleResultsFound("Multiple rows were found when one or none was required")
+        return self.rows[0] if self.rows else None
+
+    def __getattr__(self, name):
+        raise NotModelled("ScalarResult.%s" % name)
+
+
+class FakeSession:
+    """session stub for the symbolic run: scalars(statement) answers with the rows of the modelled SQL semantics; whether a
+    row is part of the result is decided per path (the truth of its WHERE clause is a symbolic boolean that is branched on)"""
+
+    def __init__(self, tables, root_table):
+        self.tables, self.root_table = tables, root_table
+
+    def scalars(self, stmt):
+        per_root = sql_selected(stmt, self.tables, self.root_table)
+        rows = []
+        for rid in sorted(per_root):
+            row = FakeRow(rid)
+            for w in per_root[rid]:
+                if w is True or (w is not False and bool(w)):
+                    rows.append(row)
+        return FakeScalarResult(rows)
+
+    def __getattr__(self, name):
+        raise NotModelled("Session.%s" % name)
 
 
 def dao_table(cls):
